@@ -31,7 +31,8 @@ def is_crtf(methodname, filepath):
     exten = {'read': all_exten, 'write': all_exten[0]}
 
     if methodname == 'write':
-        return filepath.lower().endswith(exten[methodname])
+        # the file name may be given as a path-like object
+        return str(filepath).lower().endswith(exten[methodname])
 
     elif methodname == 'read':
         if (isinstance(filepath, str)
